@@ -57,6 +57,10 @@ type Config struct {
 	PoolRandom int     `json:"pool_random"` //
 	DropRate   float64 `json:"drop_rate"`   // probability per decision point that one pool is emptied (GC)
 	LivePct    int     `json:"live_pct"`    // percentage of global-variable yield sites that are live this run
+	// ClockSkipPct: percentage of the starts of API calls at which the (bubble) clock is first moved
+	// forward by a duration between a millisecond and a month - a suspended laptop, a long-lived
+	// server. Which starts and how far is a function of Seed, task and call index.
+	ClockSkipPct int `json:"clock_skip_pct,omitempty"`
 	StepBudget []int   `json:"step_budget"` // per task: max decision points (0 = unlimited)
 	Replay     *Sparse `json:"replay,omitempty"`
 }
@@ -102,6 +106,8 @@ type Stats struct {
 	ChaseHits      int            `json:"chase_after_put"`
 	Deadlocks      int            `json:"deadlocks"`
 	BudgetAborts   int            `json:"budget_aborts"`
+	ClockSkips     int            `json:"clock_skips"`               // clock moved forward at the start of a call (fault kind clock-skip)
+	SimTimeMs      int64          `json:"sim_time_ms"`               // simulated time covered by skips and jumps
 	ClockJumps     int            `json:"clock_jumps"`               // simulated hours skipped because only timers could make progress
 	ExternalBlocks int            `json:"blocked_outside_simulator"` // a task blocked on a channel/Cond/... of the code under test
 	Leaked         []int          `json:"tasks_blocked_forever,omitempty"`
@@ -548,6 +554,7 @@ func (s *Sim) jumpClock() bool {
 		return false
 	}
 	s.stats.ClockJumps++
+	s.stats.SimTimeMs += time.Hour.Milliseconds()
 	time.Sleep(time.Hour)
 	progressed := false
 	for {
@@ -917,6 +924,18 @@ func (s *Sim) complete(t *task) resp {
 			s.stats.OnceRun++
 			return resp{run: true}
 		}
+	case KStep:
+		// fault kind clock-skip: time passes between two calls of a task. Every other goroutine of
+		// the bubble is parked (or will park), so the sleep returns at once with the clock moved.
+		if pct := s.cfg.ClockSkipPct; pct > 0 && s.quiescent != nil {
+			x := Mix(s.cfg.Seed, 0xc10c, uint64(t.id), uint64(t.step))
+			if int(x%100) < pct {
+				d := clockSkips[(x>>8)%uint64(len(clockSkips))]
+				s.stats.ClockSkips++
+				s.stats.SimTimeMs += d.Milliseconds()
+				time.Sleep(d)
+			}
+		}
 	case KStamp:
 		return resp{ev: s.ev}
 	case KSpawn:
@@ -935,6 +954,8 @@ func (s *Sim) complete(t *task) resp {
 	}
 	return resp{}
 }
+
+var clockSkips = []time.Duration{time.Millisecond, time.Second, 61 * time.Second, 10*time.Minute + time.Second, time.Hour + time.Second, 25 * time.Hour, 31 * 24 * time.Hour}
 
 func (s *Sim) poolChoice(p *poolState) int {
 	n := len(p.free)
